@@ -16,13 +16,24 @@ def _mk(R, diag):
         p, par = SP.gen_pdf(w, "p", R, "D", diag=diag)
         key = w.random_key("k")
         n = w.size("Ns")
+        keys0 = set(p.__dict__)
         x = p.sample(key, n)                                               # REAL
+        extra = sorted(set(p.__dict__) - keys0)
+        w.check("frame/no-undeclared-cache", not extra, f"sample() left new state on the density: {extra}")
         r = 1 if R == 1 else w.size(R)
         z = w.random_normal(key, (n, r, w.size("D")))
         L = w.cholesky(par["S"])
         w.equal("x=mu+L z (pairing of L[a] with z[:,a,:], shape [n,R,D])", x, par["mu"][None] + xp.einsum("abc,dac->dab", L, z))
         x2 = p.sample(key, n)
         w.equal("deterministic-in-key", x2, x)
+        if R != 1:
+            # history: after an in-place update() the draws follow the NEW components (no factor of the old covariance survives)
+            d, dd = SP.gen_pdf(w, "d", "Rn", "D", diag=diag)
+            idx = w.index_map("idx", "Rn", R)
+            p.update(idx, d)                                               # REAL (in place)
+            x3 = p.sample(key, n)                                          # REAL
+            w.equal("after-update/x=mu+L z with the updated parameters", x3,
+                    p.mu[None] + xp.einsum("abc,dac->dab", w.cholesky(p.Sigma), z))
         if w.symbolic:
             comps, occ = w.atom_indices(x, "z[k]")
             # x[d, a, i] may depend on the stream only through z[d, a, .]: independence across draws and components
@@ -42,5 +53,5 @@ def _mk(R, diag):
 
 for _R in ("R", 1):
     for _diag in (False, True):
-        REG.ob(f"{'GaussianDiagPDF' if _diag else 'GaussianPDF'}.sample/R={_R}", sorts=(["R"] if _R != 1 else []) + ["D", "Ns"],
+        REG.ob(f"{'GaussianDiagPDF' if _diag else 'GaussianPDF'}.sample/R={_R}", sorts=(["R", "Rn"] if _R != 1 else []) + ["D", "Ns"],
                funcs=["pdf.GaussianPDF.sample"], axioms=AX)(_mk(_R, _diag))
